@@ -21,17 +21,18 @@ pub const EXTRA_FLAGS: [&str; 4] = ["partial_start_graphs_explored", "censor_sub
 
 pub fn plan(quick: bool) -> Vec<Part> {
     let mut v = vec![];
-    let (l4, p4, t4) = if quick { (7, 4, 6) } else { (9, 5, 8) };
-    let (l5, t5) = if quick { (7, 6) } else { (9, 8) };
-    let l6 = if quick { 7 } else { 9 };
-    let (part, cens) = if quick { (5, 4) } else { (7, 6) };
+    let (l4, p4, t4) = if quick { (7, 4, 6) } else { (8, 4, 7) };
+    let (l5, t5) = if quick { (7, 6) } else { (8, 7) };
+    let l6 = if quick { 7 } else { 8 };
+    let (part, cens) = if quick { (5, 4) } else { (6, 5) };
     let d = |p: Part| p.dim("part", &[part]).dim("cens", &[cens]);
     v.push(d(Part::new("C09", "R1+RT", 4, Space::singles(4, l4).plus(Space::thresholds(4, t4)))));
     v.push(Part::new("C09", "R2", 4, if quick { Space { segs: vec![Seg::Pair(5, 4)] } } else { Space::pairs(4, p4) }).dim("part", &[part]).dim("cens", &[if quick { 2 } else { cens }]));
     v.push(d(Part::new("C09", "R1+RT", 5, Space::singles(5, l5).plus(Space::thresholds(5, t5)))));
     v.push(d(Part::new("C09", "R1", 6, Space::singles(6, l6))));
     if !quick {
-        v.push(d(Part::new("C09", "R2", 5, Space { segs: vec![Seg::Pair(5, 5), Seg::Pair(6, 5)] })));
+        v.push(d(Part::new("C09", "R2", 4, Space { segs: vec![Seg::Pair(5, 4)] })));
+        v.push(d(Part::new("C09", "R2", 5, Space { segs: vec![Seg::Pair(5, 5)] })));
     }
     for k in BIG_K {
         v.push(d(Part::new("C09", "catalogue", k, Space { segs: vec![catalogue(k)] })));
